@@ -84,7 +84,8 @@ def main():
     dst = os.path.join(VERIF, "seeded", name)
     os.makedirs(dst, exist_ok=True)
     for fn in ("patch.diff", "demo.py"):
-        shutil.copy(os.path.join(src, fn), os.path.join(dst, fn))
+        if os.path.abspath(os.path.join(src, fn)) != os.path.abspath(os.path.join(dst, fn)):
+            shutil.copy(os.path.join(src, fn), os.path.join(dst, fn))
     meta = {}
     try:
         meta = json.load(open(os.path.join(src, "meta.json")))
